@@ -42,9 +42,20 @@ def r01a(ctx):
         stores = [s for s in walk_no_nested(init.node) if isinstance(s, (ast.Assign, ast.AnnAssign)) and
                   self_attr(s.targets[0] if isinstance(s, ast.Assign) else s.target) == attr]
         tails = 0
+        from ..astx import inline_locals
+        cases = []
         for s in stores:
-            v = s.value
-            facts = [(ast.unparse(t), pol) for t, pol in flatten_conditions(dominating_conditions(s))]
+            base = dominating_conditions(s)
+            v0 = s.value
+            if isinstance(v0, ast.IfExp):
+                # `tail if len(a) > len(b) else ()`: one case per arm
+                cases.append((s, v0.body, base + [(v0.test, True, None)]))
+                cases.append((s, v0.orelse, base + [(v0.test, False, None)]))
+            else:
+                cases.append((s, v0, base))
+        for s, v, conds in cases:
+            v = inline_locals(init.node, v) if any(isinstance(x, ast.Name) and x.id not in (frm, to) for x in ast.walk(v)) else v
+            facts = [(ast.unparse(inline_locals(init.node, t)), pol) for t, pol in flatten_conditions(conds)]
             gt = any(pol and t.replace(" ", "") in (f"len({longer})>len({shorter})", f"len({shorter})<len({longer})")
                      for t, pol in facts)
             if isinstance(v, ast.Subscript) and isinstance(v.slice, ast.Slice):
@@ -638,7 +649,9 @@ def r01e(ctx):
         p = func_params(init.node)
         frm, to = p[1], p[2]
         slots = set()
-        for c in walk_no_nested(init.node):
+        from ..astx import subst_paths, none_facts
+        init_node = subst_paths(init.node)       # `from_text = from_node.text` read as the path it names
+        for c in walk_no_nested(init_node):
             pair = None
             if isinstance(c, ast.Call) and isinstance(c.func, ast.Attribute) and c.func.attr == "edits" and c.args:
                 pair = (c.func.value, c.args[0])
@@ -680,12 +693,12 @@ def r01e(ctx):
     if q:
         init = m.method(q, "__init__")
         p = func_params(init.node)
-        for c in walk_no_nested(init.node):
+        for c in walk_no_nested(subst_paths(init.node)):
             if isinstance(c, ast.Call) and call_name(c) in ("Insert", "Remove"):
                 n += 1
                 arg = dotted(kwarg(c, "to_insert" if call_name(c) == "Insert" else "to_remove", 0))
                 want = f"{p[2]}.text" if call_name(c) == "Insert" else f"{p[1]}.text"
-                facts = [ast.unparse(t).replace(" ", "") for t, pol in flatten_conditions(dominating_conditions(c)) if pol]
+                facts = sorted(none_facts(c))
                 cond = (f"{p[1]}.textisNone" in facts and f"{p[2]}.textisnotNone" in facts) if call_name(c) == "Insert" \
                     else (f"{p[2]}.textisNone" in facts and f"{p[1]}.textisnotNone" in facts)
                 if arg == want and cond:
